@@ -8,6 +8,10 @@ stage(ctx, st):  1. writes one case file per shard (inputs only),
                     `wellformed`, codecs rot_13-equivalent table, urllib.parse.unquote_to_bytes, and a
                     small backslash unescaper.
 
+stage_mt(ctx, st): concurrency stage (st["variant"] = "asan" | "tsan"): small per-process record sets; the harness logs a
+single-threaded pass (judged here exactly like the main stage) and then repeats the records from 8 threads at once,
+requiring byte-identical results (compared in the harness against the judged single-threaded reference).
+
 File formats: see harness/c11.cc.
 """
 import base64
@@ -596,5 +600,86 @@ def stage(ctx, st):
         driver.merge(merged, r)
     merged["counters"]["case_records"] = sum(nrecs)
     # shortest witness first in each class (the replay file keeps the first five)
+    merged["violations"].sort(key=lambda v: (v["key"], len(v.get("case", ""))))
+    return merged
+
+
+# ------------------------------------------------------------------------------------------------
+# concurrency stages
+
+MT_SHARDS = {"asan": 4, "tsan": 2}
+_ALL_ESCAPED = bytes(c for c in range(256) if (c < 0x20 and c not in (7, 8, 9, 10, 11, 12, 13)) or c >= 0x7F)
+
+
+def gen_mt_records(tier, seed, shard, variant):
+    r = random.Random("c11-mt-%s-%s-%d-%d" % (variant, tier, seed, shard))
+    recs = []
+    for flag in (0, 1):
+        for n in list(range(0, 13)) + [r.randint(13, 200) for _ in range(16)]:
+            recs.append(_rec(ENC, flag, _rand_bytes(r, n, r.randint(0, 1))))
+        for i in range(40):
+            enc = ref_encode(_rand_bytes(r, r.randint(1, 40), i % 2), flag)
+            if i % 2:                      # corrupt one character (often -> invalid_argument)
+                pos = r.randrange(len(enc))
+                enc = enc[:pos] + bytes([r.choice(CORRUPT)]) + enc[pos + 1:]
+            recs.append(_rec(DEC, flag, enc))
+    letters = b"abcdefghijklmnopqrstuvwxyzABCDEFGHIJKLMNOPQRSTUVWXYZ @[`{"
+    for _ in range(20):
+        recs.append(_rec(ROT, 0, bytes(r.choice(letters) for _ in range(r.randint(1, 120)))))
+    for op, flag in ((URL, 0), (URL, 1), (CTRL, 0), (CTRL, 1), (QUOTES, 0)):
+        for i in range(40):
+            n = r.randint(1, 12) if i % 3 == 0 else r.randint(13, 250)
+            if i % 2:                      # every byte needs a \xHH / %HH escape, all different
+                data = bytes(r.choice(_ALL_ESCAPED) for _ in range(n))
+            else:
+                data = _rand_bytes(r, n, 2)
+            recs.append(_rec(op, flag, data))
+    for h in (b"a", b"example.com", b"h\xc3\xb6st.\xff\x80", b"h" * 255, b"my-host.example.org", b"10.0.0.1", b"x" * 40, b"-"):
+        lo = r.choice((0, 1, 9, 99, 999, 9999, 65535 - 48, r.randint(0, 65000)))
+        recs.append(_rec(NETLOC, 0, struct.pack("<II", lo, lo + 48) + h))
+    r.shuffle(recs)                        # thread t takes records t, t+8, ...: a mix of every function
+    return recs
+
+
+def _gen_mt_shard(job):
+    path, tier, seed, shard, variant = job
+    recs = gen_mt_records(tier, seed, shard, variant)
+    with open(path + ".tmp", "wb") as f:
+        f.write(b"C11C" + struct.pack("<I", len(recs)))
+        f.write(b"".join(recs))
+    os.replace(path + ".tmp", path)
+    return len(recs)
+
+
+def stage_mt(ctx, st):
+    from vf import driver
+    self_test()
+    variant = st.get("variant", "asan")
+    nshards = MT_SHARDS[variant]
+    tag = st.get("tag", "c11-mt")
+    workdir, tier, seed = ctx["workdir"], ctx["tier"], int(ctx["seed"])
+    cbase = os.path.join(workdir, "c11_mtcases_" + variant)
+    obase = os.path.join(workdir, "c11_mtobs_" + variant)
+    jobs = [("%s.%d.bin" % (cbase, s), tier, seed, s, variant) for s in range(nshards)]
+    with ProcessPoolExecutor(max_workers=nshards) as ex:
+        nrecs = list(ex.map(_gen_mt_shard, jobs))
+    args = ["mode=mt", "cases=" + cbase, "obs=" + obase] + (["tsan=1"] if variant == "tsan" else [])
+    merged = driver.run_harness_stage(ctx, {"name": "c11", "variant": variant, "shards": (nshards, nshards), "tag": tag,
+                                            "args": args, "timeout": (600, 3600)})
+    died = bool(merged["violations"]) or ctx.get("only_shard") is not None
+    shards = [ctx["only_shard"]] if ctx.get("only_shard") is not None else list(range(nshards))
+    shards = [s for s in shards if s < nshards]
+    jjobs = [("%s.%d.bin" % (cbase, s), "%s.%d.bin" % (obase, s), died) for s in shards]
+    with ProcessPoolExecutor(max_workers=nshards) as ex:
+        judged = list(ex.map(judge_shard, jjobs))
+    for s, (r, truncated) in zip(shards, judged):
+        for v in r["violations"]:
+            v["key"] = "mt-reference:" + v["key"]      # the single-threaded reference pass itself was wrong
+            v["meta"] = {"stage": tag, "shard": s, "nshards": nshards, "cmd": "python: vf.oracles.c11.judge_shard on the single-threaded pass of the mt stage"}
+        r["violation_counts"] = {"mt-reference:" + k: n for k, n in r["violation_counts"].items()}
+        r["classes"] = {"reference-pass-judged": sum(r["classes"].values())}
+        r["samples"] = []
+        driver.merge(merged, r)
+    merged["counters"]["mt_case_records"] = sum(nrecs)
     merged["violations"].sort(key=lambda v: (v["key"], len(v.get("case", ""))))
     return merged
